@@ -251,6 +251,53 @@ def run(ctx):
         ctx.distinct(("lookalike", tuple(rn["args"][-2:]), rn.get("stdin")))
         if r.cls != "ok" or r.stdout.decode().strip() != w:
             ctx.violation("sign-message-signs-the-digest-hash-message-prints", dict(op="hdwallet " + " ".join(short(x, 40) for x in rn["args"])), w, str(r)[:300])
+    # documents with a repeated JSON key (top-level members, member definitions, transaction fields): whatever such a document
+    # means, `sign` signs exactly what `hash` prints for it — both accept it with that digest, or both refuse it
+    tdd = json.loads(td_doc)
+    def with_dup(text, key, first_value):
+        # put a second `key` member BEFORE the existing one (so "first wins" and "last wins" readers disagree)
+        return "{" + json.dumps(key) + ":" + json.dumps(first_value) + "," + text.strip()[1:]
+    dup_docs = [("typeddata", with_dup(td_doc, "message", dict(tdd["message"], amount="7"))),
+                ("typeddata", with_dup(td_doc, "primaryType", "EIP712Domain")),
+                ("typeddata", with_dup(td_doc, "domain", dict(tdd["domain"], chainId=6))),
+                ("typeddata", with_dup(td_doc, "types", dict(tdd["types"], Msg=list(reversed(tdd["types"]["Msg"]))))),
+                ("typeddata", td_doc.replace('{"name": "amount", "type": "uint256"}', '{"name": "amount", "type": "uint8", "type": "uint256"}')),
+                ("typeddata", td_doc.replace('{"name": "amount", "type": "uint256"}', '{"name": "x", "name": "amount", "type": "uint256"}')),
+                ("transaction", with_dup(tx_doc, "nonce", 77)), ("transaction", with_dup(tx_doc, "chainId", 99)),
+                ("transaction", with_dup(tx_doc, "value", "0x1234")), ("transaction", with_dup(tx_doc, "to", "0x" + "77" * 20))]
+    a0 = accounts[0]
+    fl = ["--mnemonic", a0["phrase"]] + (["--password", a0["pw"]] if a0["pw"] else []) + sel_args(a0["sel"])[0]
+    druns = []
+    for kind, d in dup_docs:
+        druns.append(dict(args=["hash", kind, "-"], stdin=d.encode()))
+        druns.append(dict(args=["sign"] + fl + [kind] + (["--signature-only"] if kind == "transaction" else []) + ["-"], stdin=d.encode()))
+    dres = ctx.cli(druns)
+    for k, (kind, d) in enumerate(dup_docs):
+        h, sg = dres[2 * k], dres[2 * k + 1]
+        ctx.count("repeated-json-key")
+        ctx.distinct(("dupkey", d))
+        case = dict(op="hash %s - / sign %s -" % (kind, kind), document=short(d, 300))
+        if h.cls in ("panic", "signal", "timeout") or sg.cls in ("panic", "signal", "timeout"):
+            ctx.violation("repeated-json-key:abnormal", case, "result or ordinary error", dict(hash=str(h)[:150], sign=str(sg)[:150]))
+        elif (h.cls == "ok") != (sg.cls == "ok"):
+            ctx.violation("sign-and-hash-disagree-on-a-document", case, "both accept or both refuse", dict(hash=str(h)[:150], sign=str(sg)[:150]))
+        elif h.cls == "ok" and sg.stdout.decode().strip() != sig_text(a0["key"], bytes.fromhex(h.stdout.decode().strip()[2:])):
+            ctx.violation("sign-and-hash-disagree-on-a-document", case, "the signature of the digest that hash prints", dict(hash=str(h)[:150], sign=str(sg)[:150]))
+    # a file that is literally called "-" is a file when it is named through a directory (./-  dir/-); only the bare "-" is stdin
+    dash_dir = os.path.join(tmp, "dashdir")
+    os.makedirs(dash_dir, exist_ok=True)
+    open(os.path.join(dash_dir, "-"), "wb").write(msg)
+    dash = [dict(args=["hash", "data", os.path.join(dash_dir, "-")], stdin=b"from stdin"), dict(args=["hash", "message", os.path.join(dash_dir, "-")], stdin=b"from stdin"),
+            dict(args=["hex", "encode", os.path.join(dash_dir, "-")], stdin=b"from stdin"), dict(args=["hash", "data", "./-"], stdin=b"from stdin", cwd=dash_dir),
+            dict(args=["hex", "encode", "./-"], stdin=b"", cwd=dash_dir)]
+    dwant = ["0x" + pyref.keccak256(msg).hex(), want[0], "0x" + msg.hex(), "0x" + pyref.keccak256(msg).hex(), "0x" + msg.hex()]
+    for rn, w, r in zip(dash, dwant, ctx.cli(dash)):
+        ctx.count("file-named-dash")
+        ctx.distinct(("dash", tuple(rn["args"]), rn.get("cwd")))
+        if r.cls != "ok" or r.stdout.decode().strip() != w:
+            ctx.violation("file-named-dash-is-a-file", dict(op="hdwallet " + " ".join(rn["args"]), cwd=rn.get("cwd")), w, str(r)[:300])
+    os.remove(os.path.join(dash_dir, "-"))
+    os.rmdir(dash_dir)
     # the two selectors cannot be combined (flag+flag, env+flag, flag+env)
     a = accounts[0]
     conf = [dict(args=["address", "--mnemonic", a["phrase"], "--account-index", "1", "--hd-path", "m/0"]),
